@@ -58,6 +58,7 @@ u8_enum!(FinScript {
     NewCyclicIntoCell1 = 17,
     TakeCell1ThenAlloc = 18,
     NewCyclicSaveWeakPanics = 19,
+    RegisterOnCell0 = 20,
 });
 
 u8_enum!(DropScript {
@@ -1818,6 +1819,10 @@ fn run_fin_script(node: &Node) {
         FinScript::NewCyclicSaveWeakPanics => {
             #[cfg(feature = "weak")]
             script_new_cyclic_save_weak_panics();
+        },
+        FinScript::RegisterOnCell0 => {
+            #[cfg(feature = "cleaners")]
+            script_register_on_cell0(node);
         },
         FinScript::DropG => {
             let taken = c.g.borrow_mut().take();
